@@ -12,6 +12,7 @@ import Hdl21Model.Drv.C17
 import Hdl21Model.Drv.C15
 import Hdl21Model.Drv.PortRefs
 import Hdl21Model.Drv.GenRun
+import Hdl21Model.Drv.Runner
 open Lean
 
 /-- Line protocol: one JSON object per input line `{"prop": "C03", "op": ..., ...}`,
@@ -34,6 +35,7 @@ def dispatch (j : Json) : Except String Json := do
   | "C15" => Hdl21.Drv.C15.handle op j
   | "F2" => Hdl21.Drv.PortRefs.handle op j
   | "GEN" => Hdl21.Drv.GenRun.handle op j
+  | "RUN" => Hdl21.Drv.Runner.handle op j
   | "SEM" => Hdl21.Drv.Sem.handle op j
   | _ => .error s!"unknown prop {prop}"
 
